@@ -57,11 +57,12 @@ def norm_model(st):
     if isinstance(par, dict):
         par = [par[str(i + 1)] for i in range(len(par))]
     return {"n": m["n"], "par": [sorted(p) for p in par], "loose": sorted(m["loose"]),
-            "packs": sorted(sorted(p) for p in m["packs"]),
+            "packs": sorted([sorted(p[0]), p[1]] for p in m["packs"]),
             "tref": m["tref"], "lref": m["lref"], "pref": m["pref"],
             "cg": {"on": m["cg"]["on"], "commits": sorted(m["cg"]["commits"]), "closed": m["cg"]["closed"]},
-            "midx": {"on": m["midx"]["on"], "packs": sorted(sorted(p) for p in m["midx"]["packs"])},
-            "bmp": sorted(({"at": sorted(b["at"]), "for": sorted(b["for"]), "sel": sorted(b["sel"])} for b in m["bmp"]),
+            "midx": {"on": m["midx"]["on"], "packs": sorted([sorted(p[0]), p[1]] for p in m["midx"]["packs"])},
+            "bmp": sorted(({"at": [sorted(b["at"][0]), b["at"][1]], "for": [sorted(b["for"][0]), b["for"][1]],
+                            "sel": sorted(b["sel"])} for b in m["bmp"]),
                           key=lambda x: (x["at"], x["for"])),
             "idxv": m["idxv"]}
 
@@ -86,10 +87,10 @@ def stale_class(m):
     """How each accelerator of model state m relates to the primary data (for signatures)."""
     present = set(m["loose"])
     for p in m["packs"]:
-        present |= set(p)
+        present |= set(p[0])
     out = {}
     if m["midx"]["on"]:
-        listed = {i for p in m["midx"]["packs"] for i in p}
+        listed = {i for p in m["midx"]["packs"] for i in p[0]}
         out["midx"] = ("fresh" if m["midx"]["packs"] == m["packs"] else
                        "lists-pruned" if not listed <= present else "stale-packs")
     if m["cg"]["on"]:
@@ -105,7 +106,7 @@ def stale_class(m):
                 if c not in anc:
                     anc.add(c)
                     todo += m["par"][c - 1]
-            return anc <= set(b["for"])
+            return anc <= set(b["for"][0])
         out["bmp"] = ("mismatched" if any(b["at"] != b["for"] for b in live) else
                       "partial-pack" if not all(closed(b) for b in live) else "fresh")
     if any(m["pref"].values()):
@@ -205,9 +206,9 @@ def step(root, scratch, src_model, lab, dst_model, src_ans, seed=0, who=None, op
     res["ans_w"] = aw
     # the variant without acceleration data
     an = None
-    pkey = json.dumps([dst_model[k] for k in ("n", "par", "loose", "packs", "tref")], sort_keys=True)
+    nkey = json.dumps([dst_model[k] for k in ("n", "par", "loose", "packs", "tref")], sort_keys=True)
     if not want_n and n_cache is not None:
-        an = n_cache.get(pkey)
+        an = n_cache.get(nkey)
     if an is None:
         nroot = os.path.join(scratch, "n")
         shutil.rmtree(nroot, ignore_errors=True)
@@ -219,7 +220,7 @@ def step(root, scratch, src_model, lab, dst_model, src_ans, seed=0, who=None, op
         finally:
             nr.close()
         if n_cache is not None:
-            n_cache[pkey] = an
+            n_cache[nkey] = an
     res["ans_n"] = an
     cls = stale_class(dst_model)
 
@@ -242,25 +243,29 @@ def step(root, scratch, src_model, lab, dst_model, src_ans, seed=0, who=None, op
                 resp.append(f"{k}:{cls[k]}")
         return "+".join(resp) or "acc=" + ",".join(f"{k}:{v}" for k, v in sorted(cls.items()))
 
-    for q, (key, va, vb) in diff_answers(af, an).items():
-        res["viol"].append((SITE[q], "with!=without", q, cause_for(q, af), f"query {q}[{key}]: with {va!r} without {vb!r}"))
+    def is_exc(v):
+        return isinstance(v, str) and v.startswith("exc:")
+
+    fresh_bad = diff_answers(af, an)
+    for q, (key, va, vb) in fresh_bad.items():
+        clause = f"raises:{va[4:]}" if is_exc(va) and not is_exc(vb) else "with!=without"
+        res["viol"].append((SITE[q], clause, q, cause_for(q, af), f"query {q}[{key}]: with {va!r} without {vb!r}"))
     # the long-lived reader may keep serving objects of a pack it still holds open after somebody pruned them
     # (that is its pack cache, not acceleration data): compare it on the objects that are still there
-    present = set(dst_model["loose"]) | {i for p in dst_model["packs"] for i in p}
+    present = set(dst_model["loose"]) | {i for p in dst_model["packs"] for i in p[0]}
     awr, anr = restrict(aw, present), restrict(an, present)
-    fresh_bad = diff_answers(af, an)
     for q, (key, va, vb) in diff_answers(awr, anr).items():
         if q in fresh_bad:
             continue                      # already reported for the fresh reader
         doer = "self" if who == "w" else "other"
-        res["viol"].append((SITE[q], "warm!=without", q, f"{doer}-did:{act}",
+        clause = f"warm-raises:{va[4:]}" if is_exc(va) and not is_exc(vb) else "warm!=without"
+        res["viol"].append((SITE[q], clause, q, f"{doer}-did:{act}",
                             f"query {q}[{key}]: long-lived reader {va!r} without {vb!r} (provider {aw.get('provider')})"))
-    if src_ans is not None and act in TRANSPARENT_ACTS:
-        for q, (key, va, vb) in diff_answers(src_ans, af).items():
-            if q in diff_answers(af, an):
-                continue
+    # a step that only touches acceleration data / the layout must not change any accelerator-free answer
+    if src_ans is not None and src_ans.get("n") is not None and act in TRANSPARENT_ACTS:
+        for q, (key, va, vb) in diff_answers(src_ans["n"], an).items():
             res["viol"].append((SITE[q], f"changed-by:{act}", q, "args=" + ",".join(map(str, args[:1])),
-                                f"query {q}[{key}]: before {va!r} after {vb!r}"))
+                                f"query {q}[{key}]: before {va!r} after {vb!r} (both without acceleration data)"))
     for site, clause, detail in low:
         res["viol"].append((site, clause, "bitmap", cls.get("bmp", "?"), detail))
     return res
